@@ -13,7 +13,8 @@ RULE = ('Model-based stateful testing: Hypothesis-generated histories over '
         'skip_sid=None|sid|list, namespace), ops on unknown namespaces, '
         'late enter_room / leave_room for clients that have gone, a '
         'recipient whose transport dies during an emit, an application '
-        'disconnect handler that raises or ends with CancelledError} run '
+        'disconnect handler that raises or ends with CancelledError and '
+        'that looks at rooms(sid) of the client that is leaving} run '
         'against the real Server/AsyncServer on real engine.io sockets and '
         'against a set-based room model; after every emit the per-transport '
         'queues must contain exactly the expected recipients once each, and '
@@ -181,12 +182,18 @@ def _run(case, w):
                 import asyncio
                 raise asyncio.CancelledError()
             raise RuntimeError(DISC_FAULT)
-    if case['aio']:
-        async def on_disc(sid, reason):
-            d_hit()
-    else:
-        def on_disc(sid, reason):
-            d_hit()
+    seen_in_handler = []    # (sid, namespace, rooms() inside the handler)
+
+    def mk_disc(n):
+        if case['aio']:
+            async def on_disc(sid, reason):
+                seen_in_handler.append((sid, n, sio.rooms(sid, namespace=n)))
+                d_hit()
+        else:
+            def on_disc(sid, reason):
+                seen_in_handler.append((sid, n, sio.rooms(sid, namespace=n)))
+                d_hit()
+        return on_disc
     def mk_conn(n):
         if case['aio']:
             async def on_conn(sid, environ, auth=None):
@@ -201,7 +208,7 @@ def _run(case, w):
         return on_conn
     for n in NSS:
         sio.on('connect', mk_conn(n), namespace=n)
-        sio.on('disconnect', on_disc, namespace=n)
+        sio.on('disconnect', mk_disc(n), namespace=n)
     for i_ in range(case['ntrans']):
         t_ = w.open()
         fr_ = (case.get('framing') or [None] * 6)[i_ % 6]
@@ -244,6 +251,20 @@ def _run(case, w):
                     'model=%r' % (step, i, 'alive' if c['alive'] else 'gone',
                                   sorted(map(repr, got)),
                                   sorted(map(repr, want))))
+
+    def check_handler_view(step, before_end):
+        """Inside its disconnect handler a client is still in the rooms it
+        was in when its end began."""
+        for sid, n, got in seen_in_handler:
+            if sid in before_end and set(got) != before_end[sid]:
+                raise Violation('rooms-mismatch-in-disconnect-handler',
+                                'step %d: rooms(%s) inside its disconnect '
+                                'handler %r, it was in %r'
+                                % (step, sid, sorted(map(repr, got)),
+                                   sorted(map(repr, before_end[sid]))))
+            if sid in before_end and len(before_end[sid]) > 1:
+                labels['rooms_seen_from_disconnect_handler'] = True
+        del seen_in_handler[:]
 
     def expect_quiet(step, allowed=()):
         for t, pkts in w.recv_all().items():
@@ -323,15 +344,18 @@ def _run(case, w):
             if ci is None:
                 continue
             c = w.clients[ci]
+            before_end = {c['sid']: set(m.rooms(ci))}
             w.send(c['t'], wire.DISCONNECT, c['ns'])
             w.mark_dead(ci)
             note_gone(ci)
             m.gone(ci)
+            check_handler_view(step, before_end)
         elif k == 'sdisc':
             ci = live_ref(op['c'])
             if ci is None:
                 continue
             c = w.clients[ci]
+            before_end = {c['sid']: set(m.rooms(ci))}
             try:
                 w.do(sio.disconnect(c['sid'], namespace=c['ns']))
             except RuntimeError as e:
@@ -340,6 +364,7 @@ def _run(case, w):
             w.mark_dead(ci)
             note_gone(ci)
             m.gone(ci)
+            check_handler_view(step, before_end)
             got = w.recv(c['t'])
             if [(p['type'], p['nsp']) for p in got] != \
                     [(wire.DISCONNECT, c['ns'])]:
@@ -348,11 +373,14 @@ def _run(case, w):
             t = op['t'] % len(w.t)
             if not w.t_alive[t]:
                 continue
+            before_end = {}
             for i, c in enumerate(w.clients):
                 if c['t'] == t and c['alive']:
+                    before_end[c['sid']] = set(m.rooms(i))
                     note_gone(i)
                     m.gone(i)
             w.lose(t)
+            check_handler_view(step, before_end)
         elif k == 'emit':
             ns = ns_of(op['ns'])
             to = op['to']
